@@ -61,7 +61,7 @@ def cases(tier, seed):
     for prob in ("tsp", "vrp"):
         for sizes in ([20], [20, 50], [50, 20, 20]):
             for r in range(2 if q else 5):
-                out.append(dict(kind="module_files", problem=prob, sizes=sizes, N=rnd.choice([5, 7]), bs=rnd.choice([2, 3, 16]), named=bool(r % 2), s=rnd.randrange(10**6),
+                out.append(dict(kind="module_files", problem=prob, sizes=sizes, N=rnd.choice([5, 7]), bs=rnd.choice([2, 3, 16]), named=bool(r % 2), s=rnd.randrange(10**6), shuffle_train=bool((r + len(sizes)) % 2),
                                 stages=rnd.choice([["fit", "test"], ["fit", "fit", "test"], ["fit", "validate"]])))
     return out
 
